@@ -915,7 +915,7 @@ Qed.
 
 Lemma CInv_init0 : forall c,
   CInv None (mkState (fun a => arch_init a (nth a (cf_archs c) no_arch))
-                (fun j => mkShr (lres_init (VInt (nth j (cf_shared c) 0%Z)) (List.length (cf_archs c))) None)
+                (fun j => mkShr (lres_init (nth j (cf_shared c) (VInt 0%Z)) (List.length (cf_archs c))) None)
                 (fun _ => []) (fun _ => []) (fun m => nth m (cf_owner c) 0) (List.length (cf_archs c))).
 Proof.
   intros c. constructor.
@@ -934,7 +934,7 @@ Proof.
   - apply (GInv_run c []).
   - intros a Ha. apply (LInv_run c [] a). unfold init in Ha. destruct (fold_begin_n (seq 0 (List.length (cf_archs c)))
       (mkState (fun a => arch_init a (nth a (cf_archs c) no_arch))
-                (fun j => mkShr (lres_init (VInt (nth j (cf_shared c) 0%Z)) (List.length (cf_archs c))) None)
+                (fun j => mkShr (lres_init (nth j (cf_shared c) (VInt 0%Z)) (List.length (cf_archs c))) None)
                 (fun _ => []) (fun _ => []) (fun m => nth m (cf_owner c) 0) (List.length (cf_archs c)))) as (Hn & _).
     rewrite Hn in Ha. exact Ha.
   - unfold init. apply CInv_fold_begin; [apply seq_NoDup|apply CInv_init0|].
